@@ -318,6 +318,8 @@ def part2_designs(tier, seed):
     out.append({'part': 2, 'fam': 'LOOP', 'kind': 'ring'})
     out.append({'part': 2, 'fam': 'LOOP', 'kind': 'fed_loop'})
     out.append({'part': 2, 'fam': 'LOOP', 'kind': 'reg_loop'})
+    out.append({'part': 2, 'fam': 'LOOP', 'kind': 'repeat_args'})
+    out.append({'part': 2, 'fam': 'LOOP', 'kind': 'repeat_args_mem'})
     return out
 
 
@@ -350,6 +352,21 @@ def build_loop(d):
         r.next <<= r + 1
         o = pyrtl.Output(2, 'o')
         o <<= r
+    elif k == 'repeat_args':
+        # nets that read one wire in several, non-adjacent, argument positions (legal; each is still one net)
+        x, y = pyrtl.Input(1, 'x'), pyrtl.Input(1, 'y')
+        t = x & y
+        o = pyrtl.Output(3, 'o')
+        o <<= pyrtl.concat(t, y, t)
+        p = pyrtl.Output(1, 'p')
+        p <<= pyrtl.select(t, t, y)
+    elif k == 'repeat_args_mem':
+        x, y = pyrtl.Input(1, 'x'), pyrtl.Input(2, 'y')
+        t = x & y[0]
+        m = pyrtl.MemBlock(bitwidth=2, addrwidth=1, name='m', asynchronous=True)
+        m[t] <<= pyrtl.MemBlock.EnabledWrite(y, t)        # the enable is also the address
+        o = pyrtl.Output(2, 'o')
+        o <<= m[t]
     return pyrtl.working_block()
 
 
@@ -358,7 +375,7 @@ designs.register_family('LOOP', build_loop)
 
 def run_part2(case, ob, site):
     block = designs.build(case)
-    looped = case.get('fam') == 'LOOP' and case['kind'] != 'reg_loop'
+    looped = case.get('fam') == 'LOOP' and case['kind'] in ('ring', 'fed_loop', 'mem_loop')
     nclear = len(block.wirevector_subset((pyrtl.Input, pyrtl.Const, pyrtl.Register)))
     if len(block.logic) > 9 or nclear > 3:
         ob.notes.append('design outside the part-2 size bound (nets > 9 or initially-ready wires > 3): skipped')
@@ -454,13 +471,14 @@ CYCLES = ('comb_cycle', 'isolated_ring', 'mem_cycle', 'cycle_into_sync_mem')   #
 
 def part3_cases(tier, seed):
     base = designs.expr_cases(8 if tier == 'quick' else 80, seed + 11, n=5, maxw=4, nrom=0) + \
-        [c for c in designs.seq_cases(widths=(3,)) if c['kind'] in ('chain', 'mem_rdw', 'counter', 'rom_reg')]
+        [c for c in designs.seq_cases(widths=(3,)) if c['kind'] in ('chain', 'mem_rdw', 'counter', 'rom_reg')] + \
+        [{'fam': 'LOOP', 'kind': 'repeat_args'}, {'fam': 'LOOP', 'kind': 'repeat_args_mem'}]
     out = []
     for ci, c in enumerate(base):
         for mode in MODES:
             out.append(dict(c, part=3, fault=None, mode=mode))
         for fi, f in enumerate(FAULTS):
-            for site in range(3 if tier == 'quick' else 6):
+            for site in range((5 if f == 'unconnected' else 3) if tier == 'quick' else 6):
                 modes = MODES if (site == 0 or tier != 'quick') else [MODES[(ci + fi + site) % len(MODES)]]
                 for mode in modes:
                     out.append(dict(c, part=3, fault=f, fsite=site, mode=mode))
@@ -560,9 +578,19 @@ def inject(block, fault, fsite):
                 return False
             block.logic.remove(cand[fsite])
         elif fault == 'unconnected':
-            if fsite > 1:
+            # a declared wire connected to nothing: named or with an automatic name, of each non-input class
+            if fsite == 0:
+                pyrtl.WireVector(2, 'vf_dangling')
+            elif fsite == 1:
+                pyrtl.Output(2, 'vf_dangling')
+            elif fsite == 2:
+                pyrtl.WireVector(2)
+            elif fsite == 3:
+                pyrtl.Register(2)
+            elif fsite == 4:
+                pyrtl.WireVector(1, 'tmp_vf_dangling')
+            else:
                 return False
-            (pyrtl.WireVector if fsite == 0 else pyrtl.Output)(2, 'vf_dangling')
         elif fault == 'foreign_wire':
             cand = [n for n in nets if n.op in 'w~' and n.dests]
             if fsite >= len(cand):
